@@ -19,8 +19,8 @@ HARNESS_DIR = os.path.normpath(os.path.join(os.path.dirname(os.path.abspath(__fi
 
 TIERS = {
     # count, max_states, max_depth, max_width, shapes per TU
-    'quick':    dict(count=80,   max_states=32, max_depth=5, max_width=9,  per_tu=5, exhaustive=4),
-    'thorough': dict(count=1000, max_states=64, max_depth=8, max_width=33, per_tu=8, exhaustive=6),
+    'quick':    dict(count=80,   max_states=32, max_depth=5, max_width=9,  per_tu=5, exhaustive=4, big=False),
+    'thorough': dict(count=1000, max_states=64, max_depth=8, max_width=33, per_tu=8, exhaustive=6, big=True),
 }
 
 
@@ -67,6 +67,8 @@ def main():
     ap.add_argument('--shapes', help='file with one s-expression per line (instead of generating)')
     ap.add_argument('--exhaustive', type=int, default=None,
                     help='also every tree with at most N states (composite/orthogonal labelling)')
+    ap.add_argument('--big', action='store_true',
+                    help='add the shapes with SERIAL_BITS >= 256 (always on in the thorough tier)')
     ap.add_argument('--vary-headed', action='store_true', help='exhaustive mode: all headed/headless combinations')
     a = ap.parse_args()
 
@@ -86,7 +88,11 @@ def main():
         for x in S.enumerate_shapes(exhaustive, a.vary_headed):
             if S.to_sexpr(x) not in seen:
                 shs.append(x)
+    # shapes with SERIAL_BITS >= 256: expensive to compile, one TU each, started first
+    big = S.big_serial_shapes() if (tier['big'] or a.big) and not a.shapes else []
     with open(os.path.join(a.out, 'shapes.txt'), 'w') as f:
+        for s in big:
+            f.write(S.to_sexpr(s) + '\n')
         for s in shs:
             f.write(S.to_sexpr(s) + '\n')
     # balance the batches: sort by size, deal round-robin
@@ -95,6 +101,8 @@ def main():
     batches = [[] for _ in range(ntu)]
     for k, i in enumerate(order):
         batches[k % ntu].append(shs[i])
+    batches = [[s] for s in big] + batches
+    ntu = len(batches)
     jobs = [(i, E.emit_tu(b), a.out, a.include, a.sanitize, a.syntax_only, a.harness_dir)
             for i, b in enumerate(batches)]
     t_gen = time.time() - t0
@@ -134,7 +142,7 @@ def main():
     cpu_compile = sum(r[3] for r in results)
     cpu_run = sum(r[4] for r in results)
     print('shapes=%d tus=%d per_tu=%d jobs=%d mode=%s' % (
-        len(shs), ntu, per_tu, a.jobs,
+        len(shs) + len(big), ntu, per_tu, a.jobs,
         'syntax-only' if a.syntax_only else ('asan+ubsan -O1' if a.sanitize else '-O0')))
     print('time generate=%.2fs build+run(wall)=%.2fs compile(cpu-sum)=%.2fs run(cpu-sum)=%.2fs slowest-tu=%.2fs' % (
         t_gen, t_build, cpu_compile, cpu_run, max(r[3] for r in results)))
